@@ -812,3 +812,49 @@ def f_man():
 
 
 FAMILIES["man"] = f_man
+
+
+# ---------------------------------------------------------------- F-gen (C16)
+def f_gen():
+    def o(short=None, long=None, lvaliases=(), takes=False, pvs=()):
+        return {"short": b(short) if short else [], "long": b(long) if long else [], "lvaliases": [b(x) for x in lvaliases],
+                "takes": takes or bool(pvs), "pvs": [{"name": b(n), "hide": h} for (n, h) in pvs]}
+
+    def pos(id, pvs=(), required=False):
+        return {"id": b(id), "pvs": [{"name": b(n), "hide": h} for (n, h) in pvs], "required": required}
+
+    def t(name, opts=(), subs=(), valiases=(), posl=(), hide=False, version=False):
+        return {"name": b(name), "valiases": [b(x) for x in valiases], "opts": list(opts), "pos": list(posl), "subs": list(subs),
+                "hide": hide, "version": version}
+
+    def g(label, tree):
+        return {"fam": "gen", "label": label, "alphabet": [], "env": {}, "tree": tree}
+    leaf = t("zleaf", [o("l", "zleafopt")])
+    D = [
+        g("flat", t("prog", [o("v", "zverbose"), o(None, "zcolor", pvs=[("zalways", False), ("znever", False), ("zsecret", True)]), o("o", "zout", takes=True)],
+                    posl=[pos("zfile")])),
+        g("two-levels-aliases", t("prog", [o("v", "zverbose", lvaliases=["zverb"])],
+                                  [t("zadd", [o("f", "zforce")], valiases=["zplus"]), t("zrm", [o("r", "zrecursive")], hide=True), t("zlist")], version=True)),
+        g("three-levels", t("prog", [o("g", "zglobal")], [t("zmid", [o("m", "zmidopt")], [leaf, t("zother", [o("x", "zotheropt", takes=True)])], valiases=["zm"]),
+                                                            t("ztop2", posl=[pos("zmode", pvs=[("zfast", False), ("zslow", False)])])])),
+        g("hyphen-names", t("prog", [], [t("a-b", [o("p", "zab")]), t("a_b", [o("q", "zaub")]), t("a", [o("r", "za")], [t("c", [o("s", "zac")])])])),
+        g("prefix-siblings", t("prog", [], [t("zadd", [o("p", "zaddopt")]), t("zadd-remote", [o("q", "zaddremoteopt")]), t("zad", [o("r", "zadopt")])])),
+        g("optional-value-pvs", t("prog", [{"short": b("c"), "long": b("zcolour"), "lvaliases": [], "takes": True, "optional": True,
+                                            "pvs": [{"name": b("zauto"), "hide": False}, {"name": b("zon"), "hide": False}]}],
+                                  [t("zsub", [{"short": [], "long": b("zwhen"), "lvaliases": [], "takes": True, "optional": True,
+                                               "pvs": [{"name": b("zearly"), "hide": False}, {"name": b("zlate"), "hide": False}]}])])),
+        # recorded witness classes
+        g("mangle-collision", t("prog", [], [t("my-sub", [o("p", "zmysubopt")]), t("my", [o("q", "zmyopt")], [t("sub", [o("r", "zsubopt")])])])),
+        g("double-underscore-name", t("prog", [], [t("a__b", [o("p", "zaubopt")]), t("zc")])),
+    ]
+    for d in D:
+        def fill(x):
+            for op in x["opts"]:
+                op.setdefault("optional", False)
+            for sx in x["subs"]:
+                fill(sx)
+        fill(d["tree"])
+    return D
+
+
+FAMILIES["gen"] = f_gen
